@@ -160,14 +160,10 @@ class _InlineFunction(XPathFunction):
         else:
             if context is None:
                 raise self.missing_context()
-            elif not args and self:
-                if isinstance(context.item, DocumentNode):
-                    if isinstance(context.root, DocumentNode):
-                        context.item = context.root.getroot()
-                    elif context.root is not None:
-                        context.item = context.root
 
-                args = cast(tuple[ta.FunctionArgType], (context.item,))
+            if len(args) != len(self.varnames):
+                msg = "the function has arity {}, called with {} arguments"
+                raise self.error('XPTY0004', msg.format(len(self.varnames), len(args)))
 
             partial_function = False
             if self.variables is None:
